@@ -657,6 +657,10 @@ pub async fn run_events(
         *l = w.log.clone();
     }
     let out = outcome(w, seed, &done, violation);
-    let _ = std::fs::remove_dir_all(&dir);
+    if std::env::var_os("VERIF_KEEPDIR").is_some() {
+        eprintln!("run directory kept: {}", dir.display());
+    } else {
+        let _ = std::fs::remove_dir_all(&dir);
+    }
     out
 }
